@@ -378,8 +378,18 @@ def check(run: Run) -> None:
                             f"{sorted(tests)} instead of valid(): a held input that is valid but not all-valid (a list / bundle / dictionary with an element that has "
                             "never ticked) is not sampled when a branch (or any nested graph) starts, although the same consumer inlined would have been evaluated", loc=fa.loc(fa.body))
 
+    with run.obligation("C12.n", "K2", "switch_ remembers the key of the branch it is running: in activate_branch the new key is recorded AFTER the old branch was retired - the "
+                        "retirement (switch_teardown, or the hand-inlined forwarding arm) ends by clearing active_key, so a key recorded before it is wiped and the next tick "
+                        "of the SAME key rebuilds the branch (state lost, initial values delivered again)"):
+        fa = R.fn(run, SW, "activate_branch")
+        fl = R.flow(run, fa)
+        rec = R.store_is(r".*active_key", r"(std::move\()?key\)?")
+        wipe = R.either(R.call_is(name="switch_teardown"), R.store_is(r".*active_key", r"Value\{\}"))
+        R.k2_never_after(run, "C12.n", fl, rec, wipe, "activate_branch: the new key is recorded, then the retirement of the old branch clears active_key")
+
 
 VARIANTS = [
+    {"id": "n-seed-C08-8-key-recorded-before-retirement", "expect": "C12.n", "edits": [{"file": SW, "find": "  construction_rollback.release();\n\n  if (context.spec.output_forwards_to_child_terminal) {", "replace": "  construction_rollback.release();\n  storage.active_key = std::move(key);\n\n  if (context.spec.output_forwards_to_child_terminal) {"}]},
     {"id": "m-seed-C12-5-sampling-requires-all-valid", "expect": "C12.m", "edits": [{"file": "include/hgraph/runtime/nested_bindings.h", "find": "    return active && (input.valid() || accepts_invalid);", "replace": "    return active && (input.all_valid() || accepts_invalid);"}]},
     {"id": "l-key-set-path-always-sampled", "expect": "C12.l", "edits": [{"file": SW, "find": "      if (sampled) {\n        bind_sampled_input_to_source(std::move(target), source,\n                                     evaluation_time);\n      } else {\n        bind_input_to_source(std::move(target), source);\n      }", "replace": "      bind_sampled_input_to_source(std::move(target), source,\n                                   evaluation_time);"}]},
     {"id": "l-ordinary-path-always-sampled", "expect": "C12.l", "edits": [{"file": SW, "find": "      bind_nested_input_to_source(std::move(target), std::move(source),\n                                  evaluation_time, sampled);", "replace": "      bind_nested_input_to_source(std::move(target), std::move(source),\n                                  evaluation_time, true);"}]},
